@@ -233,16 +233,35 @@ def v1_hasher(ctx):
             and atoms.index("len(%s) < %s" % (arr, PL)) < [i for i, a in enumerate(atoms) if a.endswith("next_file()")][0]
         ctx.decide("C01.6", hp, ok, "stitching continues while the piece is short and (then) another file can be opened",
                    "stitching loop condition is `%s`: must be `len(piece) < piece_length and next_file()` in that order (else a file is opened and skipped when the piece is already full)" % norm(t), t)
-        reqs = [n for n in ast.walk(wl[0]) if isinstance(n, ast.Assign) and isinstance(n.value, ast.Call) and norm(n.value.func) in ("bytearray", "bytes")]
-        for r in reqs:
-            a = r.value.args[0]
-            if isinstance(a, ast.Name):
-                vals = [n.value for n in ast.walk(wl[0]) if isinstance(n, ast.Assign) and norm(n.targets[0]) == a.id]
-                a = vals[0] if len(vals) == 1 else a
-            v = lin_of(a, consts)
-            want = Lin.atom(PL).sub(Lin.atom("len(%s)" % arr))
-            ctx.decide("C01.6", hp, v == want, "continuation requests piece_length - len(piece so far) bytes",
-                       "continuation requests %s bytes; must be %s" % (v, want), r)
+        # the buffer handed to readinto inside the stitching loop: allocated for piece_length - len(piece so far), and the piece
+        # must not have grown between the allocation and the read (otherwise the request is stale and the next file is over-read)
+        ghp = C.cfg_of(hp)
+        rdf = ReachDefs(hp, ghp)
+        want = Lin.atom(PL).sub(Lin.atom("len(%s)" % arr))
+        for rd in [n for n in ast.walk(wl[0]) if isinstance(n, ast.Call) and isinstance(n.func, ast.Attribute) and n.func.attr == "readinto" and n.args and isinstance(n.args[0], ast.Name)]:
+            B = rd.args[0].id
+            rn = C.stmt_node(ctx, hp, rd)
+            defs = rdf.reaching(B, rn)
+            grows = [C.stmt_node(ctx, hp, x) for x in own_nodes(hp.node) if isinstance(x, ast.Call) and isinstance(x.func, ast.Attribute) and x.func.attr in ("extend", "append")
+                     and norm(x.func.value) == arr]
+            if not defs:
+                ctx.undecided("C01.6", hp, "definition of the read buffer %r not found" % B, rd)
+            for d in defs:
+                v = d.value
+                size_e = v.args[0] if isinstance(v, ast.Call) and norm(v.func) in ("bytearray", "bytes") and v.args else None
+                if isinstance(size_e, ast.Name):
+                    sd = rdf.reaching(size_e.id, d.node)
+                    vals = [x.value for x in sd if x.kind == "assign"]
+                    size_e = vals[0] if len(vals) == 1 and len(sd) == 1 else size_e
+                szf = lin_of(size_e, consts) if size_e is not None else None
+                stale = any(m is not None and m in ghp.reachable(d.node, avoiding={d.node}) and rn in ghp.reachable(m, avoiding={d.node}) and m is not d.node for m in grows)
+                if szf != want:
+                    ctx.violated("C01.6", hp, "continuation buffer is allocated with %s bytes; must be %s" % (szf, want), d.stmt if d.stmt is not None else rd)
+                elif stale:
+                    ctx.violated("C01.6", hp, "the continuation buffer is sized once (%s) but the piece grows before it is read into again: with three or more files in one piece the request is larger than what is missing and the piece is over-filled" % want,
+                                 d.stmt if d.stmt is not None else rd)
+                else:
+                    ctx.holds("C01.6", hp, "continuation requests piece_length - len(piece so far) bytes, recomputed for every file", d.stmt if d.stmt is not None else rd)
         exts = [n for n in ast.walk(wl[0]) if isinstance(n, ast.Call) and isinstance(n.func, ast.Attribute) and n.func.attr == "extend" and norm(n.func.value) == arr]
         ctx.decide("C01.6", hp, len(exts) == 1, "the bytes read are appended to the piece once per file", "expected one extend of the piece in the stitching loop, found %d" % len(exts), wl[0])
     # next_file
